@@ -321,9 +321,10 @@ func (c *cubicSender) SetMaxDatagramSize(s protocol.ByteCount) {
 	if s < c.maxDatagramSize {
 		panic(fmt.Sprintf("congestion BUG: decreased max datagram size from %d to %d", c.maxDatagramSize, s))
 	}
-	cwndIsMinCwnd := c.congestionWindow == c.minCongestionWindow()
 	c.maxDatagramSize = s
-	if cwndIsMinCwnd {
+	// the minimum window is two packets of the new size: lift a window that was at the old
+	// minimum, or anywhere between the old and the new one
+	if c.congestionWindow < c.minCongestionWindow() {
 		c.congestionWindow = c.minCongestionWindow()
 	}
 	c.pacer.SetMaxDatagramSize(s)
